@@ -834,7 +834,8 @@ def reindex_(
         # all groups were NaN
         shape = array.shape[:-1] + (len(to),)
         if array_type in (ReindexArrayType.AUTO, ReindexArrayType.NUMPY):
-            reindexed = np.full(shape, fill_value, dtype=array.dtype)
+            # full_like keeps a lazy (chunked) input lazy
+            reindexed = np.full_like(array, fill_value, shape=shape)
         else:
             raise NotImplementedError
         return reindexed
